@@ -623,8 +623,12 @@ class printcore():
             self.clear = True
             return
         if self.resendfrom < self.lineno and self.resendfrom > -1:
-            self._send(self.sentlines[self.resendfrom], self.resendfrom, False)
-            self.resendfrom += 1
+            # Advance the cursor before transmitting: a resend request
+            # handled by the read thread while the line is being written
+            # must not be overwritten by the increment.
+            resend = self.resendfrom
+            self.resendfrom = resend + 1
+            self._send(self.sentlines[resend], resend, False)
             return
         self.resendfrom = -1
         if not self.priqueue.empty():
